@@ -91,7 +91,18 @@ def main(argv):
         return 1 if new else 0
     pid, tier = argv[0], (argv[1] if len(argv) > 1 else os.environ.get("VERIF_TIER", "quick"))
     mod = importlib.import_module(f"vf.checks.{pid.lower()}")
+    from . import findings
+
+    witness_viols = []
+    for f in findings.findings_for(pid):
+        w = f.get("witness")
+        if isinstance(w, dict) and pid in w:
+            w = w[pid]
+        if w and hasattr(mod, "replay") and "sub" in w:
+            witness_viols.extend(mod.replay({"case": w}))
     result = mod.run(tier, seed)
+    result["violations"] = list(result.get("violations", [])) + witness_viols
+    result["coverage"]["known_finding_witnesses_replayed"] = len(findings.findings_for(pid))
     return _finish(pid, tier, seed, result, t0)
 
 
